@@ -483,7 +483,7 @@ def plan(tier, seed):
     return conf.make_plan(
         me, tier, seed, nchunks=48,
         rule="(S) every (shape, layout, window, step, dilation) cell incl. invalid ones and a type-error catalogue; (V) conv_nd full 1-D product and "
-        "per-axis representative product in 2-D, max_pool likewise, valid and invalid; (F) batchnorm/softmax/logsoftmax/gru/loss lattices vs formulas "
+        "per-axis representative product in 2-D, max_pool likewise, valid and invalid, plus operand dtype x container cells; (F) batchnorm/softmax/logsoftmax/gru/loss lattices vs formulas "
         "evaluated with Python floats; every cell is distinct",
         bounds={"tier": tier},
         assumptions=["gru is checked for dropout=0 only (dropout uses the global NumPy RNG)", "float64; tolerance 1e-9..1e-12 relative against nested-loop evaluation"],
